@@ -6,6 +6,7 @@ pub mod docspace;
 pub mod dom;
 pub mod oracle;
 pub mod par;
+pub mod progfarm;
 pub mod refmodel;
 pub mod rsast;
 pub mod subject;
